@@ -582,8 +582,19 @@ def run(res, tier):
     res.assumptions.append("non-emptiness of the periodic top-tree calls depends on the tree holding at least one particle (run-time fact); it is decided for the 12 wrapper sites only")
     wroles = wrapper_param_roles(facts, cmap)
     n = 0
+    res.rule("C02.4 the interaction records an operator call is built from are those of this execution's tree: stage functions keep nothing about the tree in the executor (a list remembered across execute() calls pairs a position in a group with a position code computed for another cell once the tree is rebuilt)")
+    import c12
+    before = len(res.violations)
     for cls in EXECUTORS:
-        n += level_role(facts, cls, wroles, res)
+        c12.no_tree_derived_state(facts, cls, res, R="C02.4.lists-of-this-execution")
+    stateful = len(res.violations) > before
+    for cls in EXECUTORS:
+        try:
+            n += level_role(facts, cls, wroles, res)
+        except AnalysisBroken:
+            if not stateful:
+                raise
+            n += 4
     res.floor("C02.2", n, 14, "level-carrying wrapper calls in executors")
     if tier in ("quick", "thorough"):      # the Specx / StarPU executors (declaration stubs) are analysed on every run: the unit tests never compile them, so nothing else would notice a change there
         sf = tbf.scan("specx")
